@@ -21,3 +21,12 @@ claim(
     "abstract interpretation of __call__ to a boolean formula + exhaustive truth-table comparison; recorded-call extraction of the loop",
     "DESIGN.md §5 C07",
 )
+
+claim(
+    "C29",
+    "other",
+    "Decides the overlap predicate for every integer input: check_overlap only compares the eight slice endpoints (checked by a dataflow scan), so evaluating it on one representative of each of the 13^3 combinations of per-axis order types (Allen relations) is exhaustive; oracle: a true 3-D half-open intersection must yield True. Also decides that place_objects applies an object iff no device overlaps it and apply_params re-applies iff one does (same receiver/argument orientation), after the device loop and against the current material arrays. What apply() computes is not decided.",
+    TB + "; exhaustiveness rests on the comparison-only dataflow check",
+    "finite order-type (region) enumeration by abstract interpretation + syntax-tree rules on the two call sites",
+    "DESIGN.md §5 C29",
+)
